@@ -7,6 +7,7 @@
 import LbfgsbVerif.Model.Basic
 import LbfgsbVerif.Model.SF
 import LbfgsbVerif.Model.Shell
+import LbfgsbVerif.Generated.BenchF
 import Std.Data.HashMap
 
 open Lbfgsb
@@ -291,6 +292,12 @@ def handleShell (c : Ctx) (toks : List String) : Option (Ctx × List String) :=
     setTab fun t => { t with UPD := t.UPD.insert (keyV x) (.ok { f0, f0Old, grad, G }) }
   | ["SC", r] => (parseRes r parseF).bind fun r => setTab fun t => { t with SC := r }
   | ["run"] => some (c, runShell c)
+  | ["bench", name, x] => do
+    let x ← parseV x
+    let arr := x.toArray
+    match Lbfgsb.Generated.BenchF.table.lookup name with
+    | some f => some (c, [s!"bench {showV (f arr.size (fun i => arr[i]!))}"])
+    | none => some (c, ["bench-unknown"])
   | _ => none
 
 def handleAll (c : Ctx) (line : String) : Ctx × List String :=
